@@ -234,6 +234,11 @@ detail::TypedArgBase*
    mSubGroupArgs.addArgument( arg_hdl, key);
    mDescription.addArgument( desc, arg_hdl);
 
+   // the key of a sub-group argument must not collide with an argument of
+   // another handler of the same argument group either
+   if (mUsedByGroup)
+      Groups::instance().crossCheckArguments( this);
+
    return arg_hdl;
 } // Handler::addArgument
 
